@@ -80,9 +80,10 @@ def path_text(p, texts):
     return s
 
 
-def send(app, log, decoded_path, raw_query, method):
+def send(app, log, decoded_path, raw_query, method, mount=''):
     from werkzeug.test import create_environ, run_wsgi_app
-    env = create_environ('/', base_url='http://localhost/')
+    # mount: the application lives under a prefix of the server's URL space (SCRIPT_NAME): "the same URL" includes it
+    env = create_environ('/', base_url='http://localhost%s/' % mount)
     env['PATH_INFO'] = decoded_path.encode('utf8').decode('latin1')
     env['QUERY_STRING'] = raw_query
     env['REQUEST_METHOD'] = method
@@ -95,7 +96,7 @@ def send(app, log, decoded_path, raw_query, method):
     return code, headers, list(log.calls)
 
 
-def project(cfg, code, headers, calls, texts_rev, req_query_raw):
+def project(cfg, code, headers, calls, texts_rev, req_query_raw, mount=''):
     """abstract answer: k, path (for redirects), query id-equality flag, params"""
     if calls:
         c = calls[-1]
@@ -114,7 +115,10 @@ def project(cfg, code, headers, calls, texts_rev, req_query_raw):
     if code in (301, 302, 303, 307, 308):
         loc = headers.get('Location')
         sp = urlsplit(loc)
-        dec = unquote_to_bytes(sp.path).decode('utf8', 'replace')
+        lpath = sp.path
+        if mount:
+            lpath = lpath[len(mount):] if lpath.startswith(mount + '/') else '/OUTSIDE-THE-MOUNT' + lpath
+        dec = unquote_to_bytes(lpath).decode('utf8', 'replace')
         return {'k': 'redirect', 'loc': loc, 'dec_path': dec, 'loc_query': sp.query, 'fragment': sp.fragment,
                 'query_same': same_query(sp.query, req_query_raw) and sp.fragment == ''}
     if code == 404:
@@ -128,16 +132,18 @@ def exchange(cfg, req, texts):
     """returns (o1, o2 or None) projected observations + diagnostics"""
     log = Log()
     import zlib
-    app = build(cfg, log, split=zlib.crc32(json.dumps([cfg, req], sort_keys=True).encode('utf8')))
+    crc = zlib.crc32(json.dumps([cfg, req], sort_keys=True).encode('utf8'))
+    app = build(cfg, log, split=crc)
+    mount = '/mnt' if (crc >> 9) % 3 == 0 else ''
     rev = dict((v, k) for k, v in texts.items())
     p = path_text(req['path'], texts)
     q = QUERY[req['query']]
-    code, headers, calls = send(app, log, p, q, req['method'])
-    o1 = project(cfg, code, headers, calls, rev, q)
+    code, headers, calls = send(app, log, p, q, req['method'], mount)
+    o1 = project(cfg, code, headers, calls, rev, q, mount)
     o2 = None
     if o1['k'] == 'redirect':
-        code2, headers2, calls2 = send(app, log, o1['dec_path'], o1['loc_query'], req['method'])
-        o2 = project(cfg, code2, headers2, calls2, rev, q)
+        code2, headers2, calls2 = send(app, log, o1['dec_path'], o1['loc_query'], req['method'], mount)
+        o2 = project(cfg, code2, headers2, calls2, rev, q, mount)
     return o1, o2, p
 
 
